@@ -5,6 +5,7 @@ import (
 	"fmt"
 	"io"
 	"os"
+	"runtime"
 	"sort"
 	"testing"
 
@@ -123,6 +124,9 @@ func morassClient(sim *simrt.Sim, pl *MorassPlan, obs *morassObs) {
 	if ioErr("New", err) {
 		return
 	}
+	// New registers a finalizer that calls back into the woven package from
+	// the runtime's finalizer goroutine, which the simulator does not own.
+	defer runtime.SetFinalizer(m, nil)
 	m.AutoClear = pl.AutoClear
 	m.AutoClean = pl.AutoClean
 	obs.delivered = true
